@@ -232,3 +232,22 @@ Definition P_C10_old_new (v : avendor) (gs : list gen) (outs : list gres) (out :
             | None => true
             end
   end.
+
+(* ---------- the property as one predicate ---------- *)
+
+(* input: vendor and generators; output: for every generator its result without and with its own
+   ACL, and the outcome of _old_new_per_device.  The correspondence run evaluates the four clauses
+   separately (so that a failure names its clause); this is their conjunction. *)
+Fixpoint forallb2 {A B} (f : A -> B -> bool) (l : list A) (m : list B) : bool :=
+  match l, m with
+  | [], [] => true
+  | x :: l', y :: m' => f x y && forallb2 f l' m'
+  | _, _ => false
+  end.
+
+Definition P_C10 (x : avendor * list gen) (y : (list gres * list gres) * ores) : bool :=
+  let '(v, gs) := x in
+  let '(noacl, withacl, out) := y in
+  forallb2 (fun g o => P_C10_tree (g_prog g) o) gs noacl &&
+  forallb2 (P_C10_confined v) gs withacl &&
+  P_C10_old_new v gs withacl out.
